@@ -321,6 +321,18 @@ def _check(desc):
         if second != fresh:
             fails.append(('get_dwarf_info(follow_links=%s) after get_dwarf_info(follow_links=%s) on the same ELFFile' % (not follow, follow),
                           'as on a fresh ELFFile: (has_debug_info, supplementary loaded, dump digest) = %r' % (fresh,), second))
+    if t == 'debuglink' and desc['loader'] and follow and not fails:
+        # the checksum is verified every time the link is followed: the linked file may have been replaced since the last call
+        fn = LINK_NAMES[desc['name'] % len(LINK_NAMES)]
+        good = files[fn]
+        files[fn] = good[:-1] + bytes([good[-1] ^ 0x5a])
+        again = guarded(lambda: elf.get_dwarf_info(follow_links=True))
+        if not (isinstance(again, Raised) and again.isa('ELFError')):
+            fails.append(('get_dwarf_info() again after the linked file changed (checksum no longer matches)', 'raises ELFError', again if isinstance(again, Raised) else 'returned'))
+        files[fn] = good
+        third = guarded(lambda: full_dump(elf.get_dwarf_info(follow_links=True)))
+        if third != ident:
+            fails.append(('get_dwarf_info() once the right linked file is back', 'the identity dump', _first_diff(ident, third)))
     return fails, True, (t, core.digest(outc if isinstance(outc, str) else repr(outc))), data
 
 
